@@ -58,13 +58,35 @@ class Stats:
                 "samples": self.samples, "violations": self.violations, "notes": self.notes}
 
 
+class HarnessError(Exception):
+    """An exception that never passed through the code under test: a defect of this machinery, never a violation."""
+
+
+def engine_frames(e):
+    """Number of traceback frames (cause/context chain included) that lie inside the tartiflette package under test."""
+    root = os.path.join(os.path.realpath(os.environ.get("VERIF_REPO", "/repo")), "tartiflette") + os.sep
+    n, seen = 0, set()
+    while e is not None and id(e) not in seen:
+        seen.add(id(e))
+        for fs in traceback.extract_tb(e.__traceback__):
+            if os.path.realpath(fs.filename).startswith(root):
+                n += 1
+        e = e.__cause__ or e.__context__
+    return n
+
+
 class Ctx:
     def __init__(self, prop, tier, seed, stats, replay=False):
         self.prop, self.tier, self.seed, self.stats, self.replay = prop, tier, seed, stats, replay
         self.index = None
         self.verbose = replay
 
-    def violation(self, kind, detail, case=None, mechanism=None):
+    def violation(self, kind, detail, case=None, mechanism=None, exc=None):
+        # called from an `except` block (or with exc=): an exception whose traceback never enters the package under test
+        # was raised by this machinery itself -> harness error (inconclusive), not a verdict about the engine
+        e = sys.exc_info()[1] if exc is None else exc     # exc=False: the exception being handled is itself the observation
+        if isinstance(e, Exception) and e.__traceback__ is not None and engine_frames(e) == 0:
+            raise HarnessError("%s: %s" % (kind, detail)) from e
         self.stats.violation(kind, detail, dict(case or {}, index=self.index, seed=self.seed, tier=self.tier), mechanism)
         if self.verbose:
             print("  !! %s: %s" % (kind, detail))
@@ -178,6 +200,9 @@ def worker(pid, tier, seed, shard, nshards, n, out):
                     break
     asyncio.run(loop())
     reach.stop()
+    hm = sys.modules.get("vt.harness")
+    for hook, k in (getattr(hm, "PASS_CALLS", None) or {}).items():
+        stats.inc("schema_passthrough_directive:" + hook, k)
     d = stats.dump()
     d.update(reach=reach.counts, reach_missing=reach.missing, harness_errors=harness_errors,
              parser=parser_kind, wall=time.time() - t0)
@@ -259,8 +284,11 @@ def supervise(pid, tier, seed):
     for he in herrs[:3]:
         inconclusive.append("harness error in case %s: %s" % (he["index"], he["trace"][-800:]))
     zero = [a for a, c in reach.items() if c == 0]
-    if zero and shards:
-        inconclusive.append("anchored functions never entered: " + ", ".join(zero))
+    if shards and reach and len(zero) == len(reach):
+        # nothing of the code the property is anchored in was entered: the workload did not reach the engine.  Single
+        # anchors that exist but were not entered (a helper the engine no longer calls) are listed in the evidence
+        # ("reach_unentered_anchors") and do not decide: they are implementation structure, not the property
+        inconclusive.append("none of the anchored functions was entered: " + ", ".join(zero))
     distinct = {k: len(v) for k, v in sets.items()}
     if shards and hasattr(prop, "post_check"):
         inconclusive.extend(prop.post_check(counters, distinct))
@@ -301,6 +329,7 @@ def supervise(pid, tier, seed):
         "distinct": distinct,
         "reach": reach,
         "reach_missing_anchors": sorted(missing),
+        "reach_unentered_anchors": sorted(zero),
         "known_findings_observed": sorted(kf_seen),
         "stale_findings": stale,
         "trusted_base": ["parser drop-in: " + str(parser), "vt reference models", "CPython %s" % sys.version.split()[0]],
